@@ -65,6 +65,20 @@ def run(ctx):
     p = vlib.run_harness(ctx, race, ["url", "--vocab", vocab_path, "--out", t2, "--mode", "conc",
                                      "--hist", "120" if quick else "1500"],
                          env={"GORACE": "halt_on_error=0 log_path=" + racelog})
+    fatal = re.search(r"fatal error: (concurrent map [a-z ]+)", p.stderr)
+    frames = re.findall(r"github\.com/la5nta/wl2k-go/transport\.[A-Za-z0-9_.()*]+?\(", p.stderr)
+    if p.returncode == 2 and fatal and frames:
+        # the Go runtime ended the process inside a registry function of the library (an unsynchronised map): no dial of
+        # that history reached its dialer or reported a missing one.  The abort cannot be recovered from, the histories
+        # recorded so far are lost with the process; the finding is the abort itself, identified by the library frames.
+        vlib.report_violation(ctx, "C19/dial/fatal", "the Go runtime aborted the process under concurrent registry calls: %s in %s" % (
+            fatal.group(1), sorted(set(f.rstrip("(") for f in frames))[:3]), {"stderr_tail": p.stderr[-3000:]})
+        vlib.write_evidence(ctx, "model_checking", {
+            "traces_validated_against_impl": acc1, "evaluations": s1["traces"], "distinct_nontrivial": len(set(r["ev"][0].get("raw") for r in rows)),
+            "rule": "ParseURL calls only: the concurrent-history harness was aborted by the Go runtime", "samples": [rows[0]["ev"][0]],
+            "exhaustive": False, "parse": s1, "concurrent": {"aborted": fatal.group(1)},
+        }, ["TLC", "Go race detector"])
+        return
     if p.returncode not in (0, 66):
         raise vlib.Undecided("url conc harness failed rc=%d: %s" % (p.returncode, p.stderr[-2000:]))
     s2 = json.loads(p.stdout.strip().splitlines()[-1])
